@@ -47,11 +47,13 @@ func (s *vP4Server) decode(tableAlias string) []vRec {
 		}
 	}
 	var out []vRec
+	seenKey := map[string]bool{}
 	for _, k := range s.order[t.Preamble.Id] {
 		e, ok := s.tables[t.Preamble.Id][k]
-		if !ok {
-			continue
+		if !ok || seenKey[k] {
+			continue // deleted, or a key that was inserted again after a delete
 		}
+		seenKey[k] = true
 		r := vRec{match: map[string]uint64{}, extra: map[string]uint64{}, params: map[string]uint64{}, prio: e.Priority}
 		for _, m := range e.Match {
 			name := ""
@@ -86,9 +88,6 @@ func (s *vP4Server) decode(tableAlias string) []vRec {
 		}
 		out = append(out, r)
 	}
-	// s.order keeps keys of deleted entries that were re-inserted twice: dedupe
-	seen := map[string]bool{}
-	_ = seen
 	return out
 }
 
@@ -366,6 +365,8 @@ func vSessionRules(k int) ([]vPDRSpec, []vFARSpec, []vQERSpec) {
 		qfi = []uint8{9, 5}[vChoose("qfi", 2)]
 		gate = uint8(vChoose("gate", 4)) * 5 & 0xf
 		sessQ = vBool("with_session_qer")
+	} else if vC04QosFixed != 0 {
+		qfi, gate, sessQ = 5, 0, true
 	} else {
 		switch vChoose("qos_profile", 3) {
 		case 1:
@@ -388,6 +389,7 @@ func vSessionRules(k int) ([]vPDRSpec, []vFARSpec, []vQERSpec) {
 
 var vC04Steps = 2
 var vC04Rich = 0
+var vC04QosFixed = 0
 
 // H_C04_history: establish / modify / delete over up to two sessions.
 func H_C04_history() {
